@@ -295,22 +295,44 @@ func queryRecover(n *chain.Node, q abci.RequestQuery) (code string) {
 	return fmt.Sprint(res.Code)
 }
 
+// genHistory draws the chain data of one history once (both twins execute the same bytes).
+func genHistory(hseed uint64, blocks int) *chainx.History {
+	w, o := chain.DefaultWorld(chainID, 3, 2, 2, 4)
+	r := gen.New(hseed)
+	t := o.GenesisTime
+	h := &chainx.History{}
+	for bi := 0; bi < blocks; bi++ {
+		b, descs := w.GenBlock(r, t, int64(bi+1), 4)
+		t = b.Time
+		var ks, ds []string
+		for _, d := range descs {
+			ks = append(ks, d.Kind)
+			ds = append(ds, d.Desc)
+		}
+		h.AddBlock(b, ks)
+		h.SetDescs(ds)
+	}
+	return h
+}
+
 // twin runs one history as role A or B and prints its lines.
-func twin(role, kind string, hseed uint64, blocks int) {
+func twin(role, kind string, hseed uint64, histPath string) {
+	h, err := chainx.LoadHistory(histPath)
+	if err != nil {
+		panic(err)
+	}
 	e := boot()
 	n := e.run.N
-	r := gen.New(hseed)
 	a := &actor{e: e, kind: kind, r: gen.New(hseed ^ 0x5bd1e995)}
-	t := e.o.GenesisTime
-	var descs []chain.TxDesc
+	var kindsB, descs []string
 	var feePre, toPre string
 	var toAddr sdk.Address
 	e.run.BeforeTx = func(i int) {
 		toAddr = nil
-		if strings.HasPrefix(descs[i].Desc, "send ") {
+		if i < len(descs) && strings.HasPrefix(descs[i], "send ") {
 			var f, to string
 			var amt int64
-			if _, err := fmt.Sscanf(strings.Replace(descs[i].Desc, "->", " ", 1), "send %s %s %d", &f, &to, &amt); err == nil && f != to {
+			if _, err := fmt.Sscanf(strings.Replace(descs[i], "->", " ", 1), "send %s %s %d", &f, &to, &amt); err == nil && f != to {
 				ad, _ := sdk.AddressFromHex(to)
 				toAddr = ad
 				feePre, toPre = chainx.Balance(n, e.feeAddr), chainx.Balance(n, ad)
@@ -325,13 +347,13 @@ func twin(role, kind string, hseed uint64, blocks int) {
 		if cs == "" {
 			cs = "ok"
 		}
-		fmt.Printf("dtx %d %d %s => code=%d/%s ante=%d msg=%d\n", n.Height+1, i, descs[i].Kind, d.Code, cs,
+		fmt.Printf("dtx %d %d %s => code=%d/%s ante=%d msg=%d\n", n.Height+1, i, kindsB[i], d.Code, cs,
 			b01(chainx.Balance(n, e.feeAddr) != feePre), b01(chainx.Balance(n, toAddr) != toPre))
 	}
-	for bi := 0; bi < blocks; bi++ {
+	for bi := range h.Blocks {
 		var b chain.Block
-		b, descs = e.w.GenBlock(r, t, n.Height+1, 4)
-		t = b.Time
+		b, kindsB = h.Block(bi)
+		descs = h.Blocks[bi].Descs
 		a.curTxs = b.Txs
 		var hook chainx.Hook
 		if role == "B" {
@@ -353,13 +375,14 @@ func main() {
 	hseed := flag.Uint64("hseed", 0, "internal")
 	blocks := flag.Int("blocks", 0, "internal / blocks per history (0 = 6..14)")
 	only := flag.String("only", "", "restrict to one activity kind")
+	histPath := flag.String("hist", "", "internal: history file")
 	flag.Parse()
 	switch *role {
 	case "probe":
 		probe()
 		return
 	case "A", "B":
-		twin(*role, *kind, *hseed, *blocks)
+		twin(*role, *kind, *hseed, *histPath)
 		return
 	}
 	t := gen.NewTrace(*out)
@@ -394,6 +417,13 @@ func main() {
 		}
 		cfgs[i] = hcfg{k, *seed*1000003 + uint64(i)*7919 + 1, nb}
 	}
+	// chain data is generated once, sequentially (the codec is process-global), before any twin starts
+	chain.ModernGlobals()
+	for i, c := range cfgs {
+		if err := genHistory(c.hseed, c.blocks).Save(fmt.Sprintf("%s.h%d.json", *out, i)); err != nil {
+			panic(err)
+		}
+	}
 	for i := range cfgs {
 		wg.Add(1)
 		go func(i int) {
@@ -401,7 +431,9 @@ func main() {
 			sem <- struct{}{}
 			defer func() { <-sem }()
 			c := cfgs[i]
-			args := []string{"-kind", c.kind, "-hseed", fmt.Sprint(c.hseed), "-blocks", fmt.Sprint(c.blocks)}
+			hp := fmt.Sprintf("%s.h%d.json", *out, i)
+			defer os.Remove(hp)
+			args := []string{"-hist", hp, "-kind", c.kind, "-hseed", fmt.Sprint(c.hseed)}
 			a, e1 := chainx.Child(childEnv, append([]string{"-role", "A"}, args...)...)
 			b, e2 := chainx.Child(childEnv, append([]string{"-role", "B"}, args...)...)
 			results[i] = result{a, b, e1, e2}
